@@ -1,30 +1,39 @@
 // C11 — SQL query results do not depend on the physical plan.
 //
 // Bounded exhaustive DML histories x exhaustive query grammar on the REAL embedded/sql engine; the oracle is
-// purely differential (no hand-written expected rows):
+// purely differential (no hand-written expected rows).
 //
-//   - Twin tables t_pk (primary key only), t_ix (indexes (a), (b), (a,b), UNIQUE(c), (f), (ts) created BEFORE
-//     the data) and t_late (the same indexes, (c) not unique, created AFTER the data) receive IDENTICAL DML. Columns:
-//     id INTEGER pk, a INTEGER, b VARCHAR[3], c INTEGER (distinct per id, NULL only for id 2), f FLOAT
-//     (0.0, -0.0, 1.5), ts TIMESTAMP, ok BOOLEAN (never indexed); all but id nullable, 3-value domains.
-//   - Histories: ALL sequences over the 12-statement alphabet `ops` up to depth 3 (thorough 4), iterative
-//     deepening. Every history is executed (statement by statement, autocommit, on each twin) and the twins
-//     must agree on error/success and on their content after every statement. A history all of whose
-//     statements changed the store is "canonical"; a non-canonical history reaches the physical state of the
-//     canonical history obtained by deleting its no-op/failed statements (which is enumerated on its own), so
-//     the query grammar is explored once per canonical history (= distinct physical state).
-//   - For a canonical history the last statement runs inside an explicit transaction. The whole query
-//     catalogue (see buildQueries: WHERE predicates, NOT/AND/OR, COUNT(*), ORDER BY, LIMIT/OFFSET, DISTINCT,
-//     GROUP BY/aggregates, inner/left/lateral/cross joins, IN/EXISTS/scalar subqueries, time-travel periods,
-//     HISTORY OF) is run in four phases: inside the open tx, after COMMIT, after creating the late indexes,
-//     after close + reopen (and once more with a 2-row sort buffer / DISTINCT spill threshold), on every
-//     twin and with `USE INDEX ON` each existing index.
+// Space
+//   - Twin tables receiving IDENTICAL DML: t_pk (primary key only), t_ix (indexes (a), (b), (a,b), UNIQUE(c),
+//     (f), (ts) created BEFORE the data), t_late (the same indexes, (c) not unique, created AFTER the data).
+//     Columns: id INTEGER pk, a INTEGER, b VARCHAR[3], c INTEGER (distinct per id, NULL only for id 2),
+//     f FLOAT (0.0, -0.0, 1.5), ts TIMESTAMP, ok BOOLEAN (never indexed); all but id nullable, 3-value domains.
+//   - Histories: ALL sequences over the 12-statement alphabet `ops` (insert, upsert of an existing id, ON
+//     CONFLICT DO NOTHING, update of indexed / non-indexed columns by pk and by indexed predicate, delete by pk
+//     and by indexed predicate, a two-statement transaction) up to depth 3 (thorough 4), shallower depths first.
+//     Every history runs statement by statement (autocommit) on each twin; the twins must agree on
+//     error/success and on their content after every statement (dml-diff). A history all of whose statements
+//     changed the store is "canonical"; a non-canonical history reaches the physical state of the canonical
+//     history obtained by deleting its failed / no-op statements (enumerated on its own), so the query grammar
+//     is explored once per canonical history (= distinct physical state).
+//   - For a canonical history the last statement runs inside an explicit transaction and the query catalogue
+//     (buildQueries: WHERE atoms over every column and operator, NOT, AND/OR pairs, COUNT(*), ORDER BY one/two
+//     columns asc/desc, LIMIT/OFFSET under a total order, DISTINCT, GROUP BY + aggregates, HAVING, inner / left
+//     / lateral / cross joins of twins, IN / EXISTS / scalar subqueries, UNION, BEFORE/UNTIL/SINCE/AFTER TX
+//     periods, HISTORY OF) runs in five phases: inside the open tx, after COMMIT, after creating the late
+//     indexes, after close + reopen, reopened with a 2-row sort buffer and DISTINCT spill threshold; on every
+//     twin, with the default plan and with USE INDEX ON every index that shares a column with the query.
 //
-// Oracles: (1) all variants of a query group return the same multiset of rows (the same LIST when the
-// ORDER BY is total), error vs success included; (2) the t_pk result is the same in every phase;
-// (3) every ORDER BY output is sorted under TypedValue.Compare of the ordering columns; (4) TLP on the
-// reference plan: rows(Q) = rows(Q WHERE P) + rows(Q WHERE NOT P) + rows(Q WHERE (P) IS NULL).
-// immudb predicates are two-valued (NULL is the smallest value), so the third branch is always empty.
+// Oracles: (1) every variant of a query group returns the same multiset of rows as the reference (t_pk,
+// default plan, same phase) — the same LIST when the ORDER BY is total — error vs success included;
+// (2) the reference result is the same in every phase; (3) every ORDER BY output is sorted under
+// TypedValue.Compare of the ordering columns; (4) TLP on the reference: rows(Q) = rows(Q WHERE P) +
+// rows(Q WHERE NOT P) + rows(Q WHERE (P) IS NULL). immudb predicates are two-valued (NULL is the smallest
+// value), so the third branch is always empty.
+//
+// Signatures: "<class> query=<sql of the deviating variant> history=<ops> variants=<reference vs variant>",
+// class = plan-diff | order-violation | tlp-violation | dml-diff, suffixed (see classify) with
+// -hashjoin-residual, -intx or -negzero for the three defect families found on the unchanged tree.
 package main
 
 import (
@@ -33,8 +42,6 @@ import (
 	"math"
 	"os"
 	"regexp"
-	"runtime/debug"
-	"runtime/pprof"
 	"sort"
 	"strings"
 	"sync"
@@ -276,18 +283,21 @@ const (
 )
 
 type query struct {
-	group   string // all variants of all queries of one group must return the same rows
-	tmpl    string // {T}{IX}: table + optional USE INDEX; {X},{Y}{IY}: two twins; {BEFOREk}/{UNTILk}/{SINCEk}/{AFTERk}: periods
-	cls     string
-	total   bool     // the requested order is total: compare as list
-	ord     []ordKey // sortedness oracle
-	nz      bool     // render -0.0 as 0.0 (value is a group representative)
-	forced  bool     // also run with USE INDEX ON every index of the table
-	two     bool     // two-table query
-	usesF   bool     // references column f outside the select list
-	phases  int
-	refOnly bool   // only on t_pk (TLP helper)
-	pred    string // WHERE predicate of a plain row query (TLP bookkeeping)
+	group        string // all variants of all queries of one group must return the same rows
+	tmpl         string // {T}{IX}: table + optional USE INDEX; {X},{Y}{IY}: two twins; {BEFOREk}/{UNTILk}/{SINCEk}/{AFTERk}: periods
+	cls          string
+	total        bool     // the requested order is total: compare as list
+	ord          []ordKey // sortedness oracle
+	nz           bool     // render -0.0 as 0.0 (value is a group representative)
+	forced       bool     // also run with USE INDEX ON each index sharing a column with the WHERE/ORDER BY/GROUP BY (all indexes if none)
+	rel          []string // those indexes
+	two          bool     // two-table query
+	usesF        bool     // references column f outside the select list
+	nzConst      bool     // uses the constant -0.0
+	hashResidual bool     // JOIN ... ON equi AND <conjunct over both tables> served by the hash join
+	phases       int
+	refOnly      bool   // only on t_pk (TLP helper)
+	pred         string // WHERE predicate of a plain row query (TLP bookkeeping)
 }
 
 var atoms = []string{
@@ -330,18 +340,22 @@ func buildQueries(depth int) []*query {
 			rest = rest[i:]
 		}
 		rest = strings.ReplaceAll(rest, cols, "")
-		q.usesF = q.usesF || fRe.MatchString(rest) || strings.Contains(rest, "@nz")
+		q.nzConst = strings.Contains(rest, "@nz")
+		q.usesF = q.usesF || fRe.MatchString(rest) || q.nzConst
+		q.hashResidual = strings.Contains(q.tmpl, " JOIN {Y} y{IY} ON ") && strings.Contains(q.tmpl, " AND y.id <> x.id")
 		if q.forced {
 			for _, ix := range indexes {
 				for _, cn := range strings.Split(strings.Trim(ix, "()"), ", ") {
-					if ix == "(id)" || regexp.MustCompile(`\b` + cn + `\b`).MatchString(rest) {
+					if ix == "(id)" || regexp.MustCompile(`\b`+cn+`\b`).MatchString(rest) {
 						q.rel = append(q.rel, ix)
 						break
 					}
 				}
 			}
-			if len(q.rel) == 1 && !regexp.MustCompile(`\b(id|ok)\b`).MatchString(rest) {
-				q.rel = indexes
+			if len(q.rel) == 1 {
+				if q.rel = indexes; regexp.MustCompile(`\b(id|ok)\b`).MatchString(rest) {
+					q.rel = []string{"(id)", "(a)"}
+				}
 			}
 		}
 		qs = append(qs, q)
@@ -372,7 +386,7 @@ func buildQueries(depth int) []*query {
 				pq := p + con + q
 				preds = append(preds, pq)
 				add(&query{tmpl: "SELECT " + cols + " FROM {T}{IX} WHERE " + pq, cls: "where2", forced: true, pred: pq})
-				add(&query{tmpl: "SELECT " + cols + " FROM {T}{IX} WHERE NOT (" + pq + ")", cls: "where2", forced: true, pred: "NOT (" + pq + ")", phases: phTx | phCommitted})
+				add(&query{tmpl: "SELECT " + cols + " FROM {T}{IX} WHERE NOT (" + pq + ")", cls: "where2", forced: true, pred: "NOT (" + pq + ")", phases: phCommitted})
 				add(&query{tmpl: "SELECT " + cols + " FROM {T} WHERE (" + pq + ") IS NULL", cls: "tlp", refOnly: true, phases: phCommitted})
 			}
 		}
@@ -395,7 +409,7 @@ func buildQueries(depth int) []*query {
 			add(&query{tmpl: "SELECT " + cols + " FROM {T}{IX}" + where(p) + " ORDER BY " + o, cls: "order", forced: true, ord: ord, total: total, phases: phAll | phSmall})
 		}
 		if total && o != "c, a" && o != "ok, id" && o != "a DESC, id" {
-			for _, lim := range []string{" LIMIT 1", " LIMIT 2 OFFSET 1", " OFFSET 1"} {
+			for _, lim := range []string{" LIMIT 1", " LIMIT 2 OFFSET 1"} { // top-N heap / full sort + offset
 				for _, p := range []string{"", "a >= 1"} {
 					add(&query{tmpl: "SELECT " + cols + " FROM {T}{IX}" + where(p) + " ORDER BY " + o + lim, cls: "limit", forced: true, ord: ord, total: true, phases: phAll | phSmall})
 				}
@@ -497,6 +511,13 @@ var perHistCap = 25
 
 type viol struct{ sig, detail string }
 
+type diff struct {
+	kind                   string
+	q                      *query
+	phase, vkey            string
+	what, variants, detail string
+}
+
 type hist struct {
 	path  []int
 	name  string
@@ -507,17 +528,47 @@ type hist struct {
 	refs  map[string]map[string]*result
 	refQ  map[string]string
 	viols []viol
+	diffs []diff
 	nq    int64
 	npc   map[string]int
 }
 
-func (h *hist) report(cls string, q *query, ix string, sig, detail string) {
-	if h.nz && q != nil && (q.usesF || strings.Contains(ix, "(f)")) {
-		cls += "-negzero"
+// report records one oracle failure; the class word is decided at the end of the history (classify).
+func (h *hist) report(kind string, q *query, phase, vkey, what, variants, detail string) {
+	h.diffs = append(h.diffs, diff{kind, q, phase, vkey, what, variants, detail})
+}
+
+// classify turns the recorded failures into violations. The class word names the family mechanically:
+//
+//	-hashjoin-residual  the query is a hash-join shape whose ON clause has a conjunct over both tables
+//	-intx               the variant differs from the reference only inside the open transaction
+//	-negzero            the query compares/orders/groups/joins on f (or forces the index on f) and -0.0 was written
+//	                    by the history or is the query constant
+func (h *hist) classify() {
+	committed := map[string]bool{}
+	for _, d := range h.diffs {
+		if d.phase == "committed" {
+			committed[d.kind+d.q.tmpl+"\x00"+d.vkey] = true
+		}
 	}
-	h.npc[cls]++
-	if h.npc[cls] <= perHistCap { // per history and class; execution order is deterministic
-		h.viols = append(h.viols, viol{cls + " " + sig + " history=" + h.name, detail})
+	for _, d := range h.diffs {
+		cls := d.kind
+		switch {
+		case d.q.hashResidual:
+			cls += "-hashjoin-residual"
+		case d.phase == "tx" && !committed[d.kind+d.q.tmpl+"\x00"+d.vkey]:
+			cls += "-intx"
+		case (d.q.usesF || strings.Contains(d.vkey, "(f)")) && (h.nz || d.q.nzConst):
+			cls += "-negzero"
+		}
+		h.npc[cls]++
+		if h.npc[cls] <= perHistCap { // per history and class; execution order is deterministic
+			sig := cls + " " + d.what + " history=" + h.name
+			if d.variants != "" {
+				sig += " variants=" + d.variants
+			}
+			h.viols = append(h.viols, viol{sig, d.detail})
+		}
 	}
 }
 
@@ -543,7 +594,10 @@ func (h *hist) instantiate(q *query, x, ix, y, iy string) (string, bool) {
 		}
 		return " USE INDEX ON " + i
 	}
-	return strings.NewReplacer("{T}", x, "{X}", x, "{IX}", use(ix), "{Y}", y, "{IY}", use(iy)).Replace(s), ok
+	for _, r := range [][2]string{{"{T}", x}, {"{X}", x}, {"{IX}", use(ix)}, {"{Y}", y}, {"{IY}", use(iy)}} {
+		s = strings.ReplaceAll(s, r[0], r[1])
+	}
+	return s, ok
 }
 
 func (h *hist) sorted(q *query, r *result) (bool, string) {
@@ -582,7 +636,7 @@ func (h *hist) runPhase(qs []*query, phase int, pname string, tables []string, m
 		type variant struct{ x, ix, y, iy string }
 		var vs []variant
 		ixOf := func(t string) []string {
-			if t == "t_pk" || !q.forced || phase == phSmall || (phase == phReopen && q.cls != "scan" && q.cls != "where" && q.cls != "count" && q.cls != "period") {
+			if t == "t_pk" || !q.forced || phase == phSmall || (phase == phReopen && q.cls != "scan" && q.cls != "count" && q.cls != "period") {
 				return []string{""}
 			}
 			return append([]string{""}, q.rel...)
@@ -604,8 +658,11 @@ func (h *hist) runPhase(qs []*query, phase int, pname string, tables []string, m
 				if must != "" && x != must && y != must {
 					continue
 				}
+				if len(tables) == 3 && x != y && !(x == "t_pk" && y == "t_ix") && !(x == "t_ix" && y == "t_late") {
+					continue // reopened: the three self joins, pk x ix and ix x late
+				}
 				vs = append(vs, variant{x, "", y, ""})
-				if y != "t_pk" && strings.Contains(q.tmpl, "{IY}") && phase != phSmall {
+				if x == "t_pk" && y != "t_pk" && strings.Contains(q.tmpl, "{IY}") && phase != phTx {
 					vs = append(vs, variant{x, "", y, "(a)"}, variant{x, "", y, "(b)"})
 				}
 			}
@@ -621,10 +678,11 @@ func (h *hist) runPhase(qs []*query, phase int, pname string, tables []string, m
 			if vr.y != "" {
 				vname += "+" + strings.TrimSpace(vr.y+" "+vr.iy)
 			}
+			vkey := vname
 			vname += "@" + pname
 			if r.err == "" && len(q.ord) > 0 {
 				if ok, why := h.sorted(q, r); !ok {
-					h.report("order-violation", q, vr.ix, fmt.Sprintf("query=%s", s), fmt.Sprintf("%s: output not sorted by the ORDER BY columns under TypedValue.Compare: %s\nrows: %s", vname, why, r.list))
+					h.report("order-violation", q, pname, vkey, "query="+s, vname, fmt.Sprintf("%s: output not sorted by the ORDER BY columns under TypedValue.Compare: %s\nrows: %s", vname, why, r.list))
 				}
 			}
 			ref := refs[q.group]
@@ -639,7 +697,7 @@ func (h *hist) runPhase(qs []*query, phase int, pname string, tables []string, m
 			}
 			if !same {
 				rq := h.refQ[pname+"\x00"+q.group]
-				h.report("plan-diff", q, vr.ix+vr.iy, fmt.Sprintf("query=%s variants=%s vs %s", s, strings.SplitN(rq, ":", 2)[0], vname),
+				h.report("plan-diff", q, pname, vkey, "query="+s, strings.SplitN(rq, ":", 2)[0]+" vs "+vname,
 					fmt.Sprintf("reference %s\n  => %s\nvariant %s: %s\n  => %s", rq, ref.list, vname, s, r.list))
 			}
 		}
@@ -661,7 +719,7 @@ func (h *hist) comparePhases(qs []*query) {
 			}
 			if !same {
 				rq, bq := h.refQ[pn+"\x00"+q.group], h.refQ["committed\x00"+q.group]
-				h.report("plan-diff", q, "", fmt.Sprintf("query=%s variants=%s vs %s", strings.SplitN(bq, ": ", 2)[1], strings.SplitN(bq, ":", 2)[0], strings.SplitN(rq, ":", 2)[0]),
+				h.report("plan-diff", q, "phase:"+pn, "t_pk", "query="+strings.SplitN(bq, ": ", 2)[1], strings.SplitN(bq, ":", 2)[0]+" vs "+strings.SplitN(rq, ":", 2)[0],
 					fmt.Sprintf("%s\n  => %s\n%s\n  => %s", bq, b.list, rq, r.list))
 			}
 			delete(h.refQ, pn+"\x00"+q.group) // groups are shared by several queries: compare once
@@ -690,8 +748,8 @@ func (h *hist) tlp() {
 		u := append(append(append([]string(nil), rp.rows...), rn.rows...), ru.rows...)
 		sort.Strings(u)
 		if strings.Join(u, " ") != all.bag {
-			q := &query{usesF: fRe.MatchString(p) || strings.Contains(p, "@nz")}
-			h.report("tlp-violation", q, "", "pred="+p, fmt.Sprintf("t_pk after commit: rows(Q)=%s but P: %s | NOT P: %s | P IS NULL: %s", all.bag, rp.bag, rn.bag, ru.bag))
+			q := &query{tmpl: p, usesF: fRe.MatchString(p) || strings.Contains(p, "@nz"), nzConst: strings.Contains(p, "@nz")}
+			h.report("tlp-violation", q, "committed", "t_pk", "pred="+p, "", fmt.Sprintf("t_pk after commit: rows(Q)=%s but P: %s | NOT P: %s | P IS NULL: %s", all.bag, rp.bag, rn.bag, ru.bag))
 		}
 	}
 }
@@ -746,6 +804,9 @@ func explore(qs []*query, path []int) {
 	var viols []viol
 	defer func() {
 		for _, x := range viols {
+			if f := os.Getenv("C11_VERBOSE"); f != "" && strings.Contains(x.sig, f) {
+				fmt.Println("SIG", x.sig, "\n   ", strings.ReplaceAll(x.detail, "\n", "\n    "))
+			}
 			c.Violate(lib.Violation{Sig: x.sig, Detail: x.detail, Replay: map[string]any{"path": path}})
 		}
 	}()
@@ -758,13 +819,14 @@ func explore(qs []*query, path []int) {
 		return
 	}
 	atomic.AddInt64(&nCanon, 1)
-	if os.Getenv("C11_DMLONLY") != "" {
-		return
-	}
 	dir := lib.Scratch("c11")
 	defer os.RemoveAll(dir)
 	h := &hist{path: path, name: name, nz: wroteNegZero(path), v: openEnv(dir, false), txOf: map[string][]uint64{}, refs: map[string]map[string]*result{}, refQ: map[string]string{}, npc: map[string]int{}}
 	defer func() { h.v.st.Close() }()
+	defer func() {
+		h.classify()
+		viols = append(viols, h.viols...)
+	}()
 	h.v.setup()
 	for k, o := range path {
 		if k == len(path)-1 {
@@ -807,7 +869,7 @@ func explore(qs []*query, path []int) {
 			return
 		}
 	}
-	h.runPhase(qs, phCommitted, "committed", []string{"t_late", "t_ix"}, "t_late")
+	h.runPhase(qs, phCommitted, "committed", []string{"t_pk", "t_late"}, "t_late")
 	for i, small := range []bool{false, true} {
 		h.v.st.Close()
 		h.v = openEnv(dir, small)
@@ -815,7 +877,6 @@ func explore(qs []*query, path []int) {
 	}
 	h.tlp()
 	h.comparePhases(qs)
-	viols = append(viols, h.viols...)
 	atomic.AddInt64(&nQueries, h.nq)
 	c.Distinct(name)
 	stateMu.Lock()
@@ -832,7 +893,6 @@ func explore(qs []*query, path []int) {
 
 func main() {
 	c = lib.New("C11", "model_checking", 100*time.Second, 25*time.Minute)
-	debug.SetGCPercent(800) // parser/reader churn: many short-lived small objects, tiny live heap
 	c.Assume("single session, sequential statements; concurrent writers are covered by C06/C13")
 	c.Assume("immudb predicates are two-valued (NULL compares as the smallest value): the TLP branch `(P) IS NULL` is required to be empty by construction, the partition reduces to P / NOT P")
 	c.Assume("queries with different text are compared only when SQL defines them as the same query: INNER JOIN ON c1 AND c2 = ON c1 WHERE c2 = cross join WHERE c1 AND c2; LATERAL over a base table = plain join")
@@ -852,20 +912,7 @@ func main() {
 			Path []int `json:"path"`
 		}
 		c.LoadReplay(&r)
-		t0 := time.Now()
-		if pf := os.Getenv("C11_PROF"); pf != "" {
-			f, _ := os.Create(pf)
-			pprof.StartCPUProfile(f)
-			defer pprof.StopCPUProfile()
-		}
 		explore(qs, r.Path)
-		pprof.StopCPUProfile()
-		if os.Getenv("C11_DEBUG") != "" {
-			fmt.Println("queries", nQueries, "elapsed", time.Since(t0))
-			for g, e := range refErrs {
-				fmt.Println("REF-ERR", g, "=>", e)
-			}
-		}
 		c.AddEvals(nQueries)
 		c.AddStates(1, 1)
 		c.Finish("replay of one recorded history", false)
@@ -886,11 +933,6 @@ func main() {
 	c.Set("query_groups", len(groups))
 	c.Set("query_templates_by_class", perCls)
 	done := 0
-	if pf := os.Getenv("C11_PROF"); pf != "" {
-		f, _ := os.Create(pf)
-		pprof.StartCPUProfile(f)
-		defer pprof.StopCPUProfile()
-	}
 	explore(qs, nil)
 	for d := 1; d <= maxDepth && !c.Expired(); d++ {
 		n := 1
@@ -916,7 +958,6 @@ func main() {
 		}
 		done = d
 	}
-	pprof.StopCPUProfile()
 	c.Set("depth_completed", done)
 	c.Set("depth_target", maxDepth)
 	c.Set("histories", nHist)
